@@ -256,6 +256,7 @@ func (b *BoolV) vs() string {
 type ErrV struct {
 	ID     int
 	Origin string
+	At     int // number of path facts when the error value was made
 }
 
 func (e *ErrV) vs() string { return fmt.Sprintf("err%d<%s>", e.ID, e.Origin) }
